@@ -80,4 +80,5 @@ def run(chk, tier, only_rule=None):
     c01.r01_1(chk, F.load(['core'], tier))
     if 'core' not in chk.units: chk.units.append('core')
     c06.r06_3(chk, tier)
+    c06.r06_5(chk, tier)
     c06.ladders(chk, tier)      # a header that announces another width/family than the bytes that follow is not well-formed
